@@ -15,9 +15,10 @@ def run(rep: Report, tier: str, only=None) -> None:
 	for c in class_splits([L, '\n', ' =('], k, n_make):
 		jobs.append(Job('O1.make', H, 'make_law', c, t, 'S', f'source <= {n_make} over [letters | newline | blank = (], symbolic 0 <= begin <= end <= len', ('multi_line', 'several_line_breaks')))
 	jobs.append(Job('O5.entry_span', H, 'entry_span_law', {}, t, 'S', 'token / tree, presence and meta.empty flags, four unbounded non-negative ints', ('recorded', 'default')))
+	jobs.append(Job('O5.restored_span', H, 'restored_span_law', {}, t, 'S', 'tree + token spans (8 unbounded non-negative ints, presence / meta.empty flags) read through Serialization.loads(dumps(tree))', ('multi_line',)))
 	for second in (0, 1):
 		jobs.append(Job('O3.quotation', H, 'quotation_law', {'second': second}, t, 'S',
-			'reported line one of 8 representative texts (tabs, blanks, code; finite), symbolic columns 0 <= begin <= end <= len, same-line / multi-line node, first / second line of the file', ('tab', 'multi_line_node', 'zero_width')))
+			'reported line one of 10 representative texts (tabs, blanks, code, form feed / vertical tab / NEL / LS characters; finite), symbolic columns 0 <= begin <= end <= len, same-line / multi-line node, first / second line of the file', ('tab', 'multi_line_node', 'zero_width')))
 	jobs.append(Job('O3.render', H, 'render_law', {}, t, 'S', 'real Nodes/Node over a synthetic tree; symbolic 1-based line (1..3) and columns (1..12), span recorded or missing; ErrorRender(Errors.NodeNotFound(node)).render()', ('position', 'no_position')))
 	if only:
 		jobs = [j for j in jobs if j.obligation in only or j.obligation.split('.')[0] in only]
